@@ -8,7 +8,8 @@ triggers) until quiescence. Printed: running task bodies, jobs whose result is a
 whether `Stop` returned.
 
   pool <workers> <maxJobs>
-  job | go <job> <fail 0|1> | done <job> | rel <r> | stop | wait <job>
+  job | go <job> <fail 0|1> | done <job> [b|n] | rel <r> | stop | wait <job>
+  (done … b: Done with a callback that blocks; done … n: with a callback that calls NewJob)
   serial <fail bits…>      SerialWorkers job: result and tasks run
 -/
 namespace Driver.C26
@@ -17,8 +18,11 @@ open HyperModel.Workers
 structure DState where
   s : State
   active : Bool
-  /-- a `NewJob` call is blocked on the full queue (the step `newJob` is not enabled yet) -/
-  pending : Bool
+  /-- `NewJob` calls blocked on the full queue (the step `newJob` is not enabled yet) -/
+  pending : Nat
+  /-- jobs whose `Done` callback calls `NewJob` (not fired yet). Callbacks run in their own
+  goroutines, concurrently with the scheduler: they are client steps of the relation -/
+  cbNew : List Nat
 
 def setStr (l : List Nat) : String :=
   if l.isEmpty then "-" else ",".intercalate (l.map toString)
@@ -45,19 +49,31 @@ def settle : Nat → State → Option State
 
 def fuelOf (s : State) : Nat := 8 * (s.ntasks + s.njobs + s.workers) + 64
 
-/-- the blocked `NewJob` goes through as soon as its step is enabled -/
-def resolvePending (d : DState) : Option DState :=
-  if d.pending && !d.s.shouldShutdown && isEnabled d.s .newJob then
-    let s1 := apply d.s .newJob
-    (settle (fuelOf s1) s1).map fun s2 => { d with s := s2, pending := false }
-  else some d
+/-- callbacks of completed jobs fire (a client `NewJob`: refused after Stop's flag, otherwise
+pending until its step is enabled), blocked `NewJob`s go through as soon as enabled -/
+def resolvePending : Nat → DState → Option DState
+  | 0, d => some d
+  | fuel + 1, d =>
+    match d.cbNew.find? (fun j => d.s.completed j) with
+    | some j =>
+      let d1 := { d with cbNew := d.cbNew.filter (· != j) }
+      if d.s.shouldShutdown then
+        if isEnabled d.s .newJob then resolvePending fuel { d1 with s := apply d.s .newJob } else none
+      else resolvePending fuel { d1 with pending := d1.pending + 1 }
+    | none =>
+      if d.pending > 0 && !d.s.shouldShutdown && isEnabled d.s .newJob then
+        let s1 := apply d.s .newJob
+        match settle (fuelOf s1) s1 with
+        | some s2 => resolvePending fuel { d with s := s2, pending := d.pending - 1 }
+        | none => none
+      else some d
 
 def client (d : DState) (st : Step) (pre : String) : DState × String :=
   if !isEnabled d.s st then (d, "not-enabled") else
   let s1 := apply d.s st
   match settle (fuelOf s1) s1 with
   | some s2 =>
-    match resolvePending { d with s := s2 } with
+    match resolvePending (2 * s2.njobs + 8) { d with s := s2 } with
     | some d2 => (d2, pre ++ obs d2.s)
     | none => (d, "model-refused")
   | none => (d, "model-refused")
@@ -79,12 +95,24 @@ def splitGroups (ws : List String) : List (List String) :=
     if w == "/" then (acc.1 ++ [acc.2], []) else (acc.1, acc.2 ++ [w])) ([], [])
   r.1 ++ [r.2]
 
+/-- `Done(cb)`: kind 0 plain, 1 a callback that blocks (no effect on the pool: it runs in its
+own goroutine), 2 a callback that calls `NewJob` once the job completed -/
+def doneOp (d : DState) (j : String) (kind : Nat) : DState × String :=
+  if !d.active then (d, "bad-op") else
+  match j.toNat? with
+  | some j =>
+    if j ≥ d.s.njobs then (d, "nojob") else
+    if d.s.closed j then (d, "closed") else
+    if kind == 2 && (d.pending > 0 || !d.cbNew.isEmpty) then (d, "busy") else
+    client (if kind == 2 then { d with cbNew := d.cbNew ++ [j] } else d) (.done j) ""
+  | none => (d, "bad-op")
+
 def step (d : DState) (ws : List String) : DState × String :=
   match ws with
   | ["pool", w, m] =>
     match w.toNat?, m.toNat? with
     | some w, some m =>
-      if 1 ≤ w ∧ w ≤ 64 ∧ 1 ≤ m ∧ m ≤ 64 then ({ s := init true w m, active := true, pending := false }, "ok") else (d, "bad-op")
+      if 1 ≤ w ∧ w ≤ 64 ∧ 1 ≤ m ∧ m ≤ 64 then ({ s := init true w m, active := true, pending := 0, cbNew := [] }, "ok") else (d, "bad-op")
     | _, _ => (d, "bad-op")
   | "serial" :: ws =>
     -- jobs (groups separated by "/") one after the other on one SerialWorkers: NewJob returns a
@@ -100,8 +128,9 @@ def step (d : DState) (ws : List String) : DState × String :=
   | ["job"] =>
     if !d.active then (d, "bad-op") else
     if d.s.shouldShutdown then client d .newJob "shutdown "
-    else if d.pending then (d, "busy")
-    else if d.s.queue.length ≥ d.s.maxJobs then ({ d with pending := true }, "pending " ++ obs d.s)
+    else if d.pending > 0 then (d, "busy")
+    else if d.s.queue.length ≥ d.s.maxJobs && !d.cbNew.isEmpty then (d, "busy")
+    else if d.s.queue.length ≥ d.s.maxJobs then ({ d with pending := 1 }, "pending " ++ obs d.s)
     else client d .newJob s!"j={d.s.njobs} "
   | ["go", j, f] =>
     if !d.active then (d, "bad-op") else
@@ -112,13 +141,9 @@ def step (d : DState) (ws : List String) : DState × String :=
       if (d.s.chan j).length ≥ 32 then (d, "full") else
       client d (.go j (f == "1")) s!"t={d.s.ntasks} "
     | _, _ => (d, "bad-op")
-  | ["done", j] =>
-    if !d.active then (d, "bad-op") else
-    match j.toNat? with
-    | some j =>
-      if j ≥ d.s.njobs then (d, "nojob") else
-      if d.s.closed j then (d, "closed") else client d (.done j) ""
-    | none => (d, "bad-op")
+  | ["done", j] => doneOp d j 0
+  | ["done", j, "b"] => doneOp d j 1
+  | ["done", j, "n"] => doneOp d j 2
   | ["rel", r] =>
     if !d.active then (d, "bad-op") else
     match r.toNat? with
@@ -133,7 +158,7 @@ def step (d : DState) (ws : List String) : DState × String :=
   | ["stop"] =>
     if !d.active then (d, "bad-op") else
     if d.s.stop != .notCalled then (d, "again") else
-    if d.pending then (d, "busy") else client d .stopFlag ""
+    if d.pending > 0 then (d, "busy") else client d .stopFlag ""
   | ["wait", j] =>
     if !d.active then (d, "bad-op") else
     match j.toNat? with
@@ -157,7 +182,7 @@ def step (d : DState) (ws : List String) : DState × String :=
   | _ => (d, "bad-op")
 
 def machine : Machine :=
-  { σ := DState, init := { s := init true 1 1, active := false, pending := false }, step := step }
+  { σ := DState, init := { s := init true 1 1, active := false, pending := 0, cbNew := [] }, step := step }
 end Driver.C26
 
 def main : IO Unit := Driver.run Driver.C26.machine
